@@ -1011,7 +1011,10 @@ func (x *lcRunner) gen() lcOp {
 		return lcOp{Op: pick("close", "bump", "restart", "mod"), K: k, Kind: "deposit", A: 30000, V: int(a.Version)}
 	case account.StatePendingUpdate, account.StatePendingBatch:
 		switch q := rng.Intn(10); {
-		case q < 4 && len(confs) > 0:
+		case q < 2 && int64(a.Expiry) > int64(e.height):
+			// let the account expire while its update is unconfirmed
+			return lcOp{Op: "block", A: int64(a.Expiry) - int64(e.height)}
+		case q < 5 && len(confs) > 0:
 			return lcOp{Op: "conf", K: k, A: int64(len(confs) - 1)}
 		case q < 7 && len(spends) > 0:
 			rg := spends[len(spends)-1]
